@@ -65,6 +65,10 @@ Definition change (f x : Z) : option Z :=
 
 Definition state := (auction * ledger)%type.
 
+(* the rejection message formats the bound with Int.Uint64(), which panics outside [0, 2^64) *)
+Definition err_u64 (bound : Z) : outcome unit :=
+  match uint64_c bound with Some _ => Err 3 | None => Panic end.
+
 Definition lift (r : lres) (code : Z) (k : ledger -> outcome state) : outcome state :=
   match r with LOk l => k l | LErr => Err code | LPanic => Panic end.
 
@@ -105,7 +109,7 @@ Definition bid (a : auction) (l : ledger) (who denom amt now xd xa : Z) : outcom
       match (if negb (status a =? 0)
              then match change (factor a) (sell a) with
                   | None => Panic
-                  | Some c => if amt >? sell a - c then Err 3 else Ok tt
+                  | Some c => if amt >? sell a - c then err_u64 (sell a - c) else Ok tt
                   end
              else if amt >? sell a then Err 4 else Ok tt) with   (* AuctionedToken = ExpectedMintedToken while no bid *)
       | Ok _ =>
@@ -126,8 +130,8 @@ Definition bid (a : auction) (l : ledger) (who denom amt now xd xa : Z) : outcom
                  match change (factor a) last with
                  | None => Panic
                  | Some c =>
-                     if rev then (if amt >? last - c then Err 3 else Ok tt)
-                     else (if amt <? last + c then Err 3 else Ok tt)
+                     if rev then (if amt >? last - c then err_u64 (last - c) else Ok tt)
+                     else (if amt <? last + c then err_u64 (last + c) else Ok tt)
                  end
              | None =>
                  if rev then (if amt >? last then Err 4 else Ok tt)
